@@ -222,11 +222,9 @@ func init() {
 			tbl := args[0].(Slice)
 			n, _ := constInt(tbl.Len)
 			off, _ := constInt(tbl.Off)
-			table := make([]string, n)
-			for i := int64(0); i < n; i++ {
-				table[i] = tbl.Arr.Dense[off+i].(string)
-			}
-			return &SymStr{Table: table, Idx: ex.toInt64(args[1].(*Term), types.Typ[types.Int])}
+			v := ex.readDense(tbl.Arr.Dense[off:off+n], ex.C.Fresh("tblidx", BV(64)), types.Typ[types.String])
+			ss := v.(*SymStr)
+			return &SymStr{Table: ss.Table, Idx: ex.toInt64(args[1].(*Term), types.Typ[types.Int])}
 		},
 		"vPopcount8": func(ex *Exec, g *Goroutine, cs *callSite, args []Value) Value {
 			return ex.C.ZExt(ex.C.Popcount(args[0].(*Term)), 64)
@@ -248,6 +246,23 @@ func init() {
 		// symbolic index for functional arrays)
 		"vMentions": func(ex *Exec, g *Goroutine, cs *callSite, args []Value) Value {
 			return ex.C.Bool(ex.mentions(args[0], args[1]))
+		},
+		// vPrivKey(name): a secp256k1 private key with a symbolic identity (may
+		// coincide with other vPrivKey keys unless the harness assumes otherwise)
+		"vPrivKey": func(ex *Exec, g *Goroutine, cs *callSite, args []Value) Value {
+			id := ex.newInput(ex.strArg(args[0]), BV(64))
+			return ex.privPtr(ex.newPriv(ex.strArg(args[0]), id))
+		},
+		"vSamePrivKey": func(ex *Exec, g *Goroutine, cs *callSite, args []Value) Value {
+			a, b := ex.asPriv(args[0]), ex.asPriv(args[1])
+			return ex.C.Eq(a.id, b.id)
+		},
+		"vSamePubKey": func(ex *Exec, g *Goroutine, cs *callSite, args []Value) Value {
+			a, b := ex.asPub(args[0]), ex.asPub(args[1])
+			if a == nil || b == nil {
+				return ex.C.Bool(a == nil && b == nil)
+			}
+			return ex.eqPoint(a, b)
 		},
 		"vIsSymbolicRun": func(ex *Exec, g *Goroutine, cs *callSite, args []Value) Value {
 			return ex.C.True()
